@@ -3,11 +3,11 @@
    The model is faithful to the code, so the failure clause of C06 is refuted for the
    EDivZero error class, by computation over F_47. *)
 From Coq Require Import ZArith List Bool.
-From GnarkV Require Import Base.Res Base.Zp CS.Solver CS.SolverZp.
+From GnarkV Require Import Base.Res Base.Zp Base.F47 CS.Solver.
 Import ListNotations.
 Local Open Scope Z_scope.
 
-Definition p47 := 47.
+
 Definition step47 := step Z 0 1 (addp p47) (mulp p47) (subp p47) (oppp p47) (divp p47) (invp p47) Z.eq_dec.
 Definition holds47 := holds Z 0 1 (addp p47) (mulp p47) (oppp p47).
 
